@@ -101,7 +101,7 @@ SIM_OPS = {
     "C17": {"mode", "meta", "reopen", "read", "revert", "resize", "dup"},
 }
 
-DELETE_EVS = {"PrepareRemove", "Coalesce", "RemoveDisk", "CleanerPick"}
+DELETE_EVS = {"PrepareRemove", "Coalesce", "RemoveDisk", "CleanerPick", "CleanerIdle"}
 REBUILD_EVS = {"SyncFile", "UpdateLUNMap", "LunMapScan", "LunMapMerge"}
 STRUCT_RULES = {"Chain", "EngineDisks", "DirNames", "DirMeta", "Head", "VolumeMeta"}
 
@@ -304,11 +304,11 @@ def run(prop, tier, seed, replay=None, embed=False):
     returns (violations, known, stats)"""
     t0 = time.time()
     quick = tier == "quick"
-    if replay is not None and prop == "C01" and (json.load(open(replay)).get("scenario") or {}).get("layer") == "L1":
+    if replay is not None and prop in ("C01", "C16") and (json.load(open(replay)).get("scenario") or {}).get("layer") == "L1":
         import fam_controller
-        v, k, st = fam_controller.run("C01", tier, seed, replay=replay, embed=True)
+        v, k, st = fam_controller.run(prop, tier, seed, replay=replay, embed=True)
         for path, rec in v:
-            print("VIOLATION property=C01 replay=%s" % path)
+            print("VIOLATION property=%s replay=%s" % (prop, path))
         return 1 if v else 0
     build_harness(["replicadrv"])
     work = scratch("rep.")
@@ -359,6 +359,10 @@ def run(prop, tier, seed, replay=None, embed=False):
                 f.write(json.dumps(rp["scenario"]) + "\n")
             cmds = [[os.path.join(BUILD, "replicadrv"), "-in", scf, "-out", os.path.join(work, "t0.ndjson"),
                      "-work", os.path.join(work, "p0")]]
+            m = re.match(r"cleanerloop:foldfail=\w+:seed=(\d+)", rp["scenario"].get("src0", ""))
+            if m:       # a round of the real background cleaner: re-run it (about 65 s)
+                cmds = [[os.path.join(BUILD, "replicadrv"), "-cleanerloop", "1", "-base", str(rp["scenario"]["id"]),
+                         "-seed", m.group(1), "-out", os.path.join(work, "t0.ndjson"), "-work", os.path.join(work, "p0")]]
             parts = [os.path.join(work, "t0.ndjson")]
             os.makedirs(os.path.join(work, "p0"))
         else:
@@ -396,6 +400,17 @@ def run(prop, tier, seed, replay=None, embed=False):
                             f.write(json.dumps(sc) + "\n")
                     cmd += ["-in", scf]
                 cmds.append(cmd)
+            if prop == "C11" and not embed:
+                # the REAL background cleaner (timer, checkpoint comparison, retention, prepare ->
+                # coalesce -> remove) against a stub controller and a stub sync agent; one round with
+                # a successful merge and one in which the merge fails (each waits for the 60 s timer)
+                for j in range(2 if quick else 6):
+                    pdir = os.path.join(work, "pc%d" % j)
+                    os.makedirs(pdir)
+                    out = os.path.join(work, "tc%d.ndjson" % j)
+                    parts.append(out)
+                    cmds.append([os.path.join(BUILD, "replicadrv"), "-out", out, "-work", pdir, "-cleanerloop", "1",
+                                 "-base", str(700000 + j), "-seed", str(seed * 1000 + 900 + j)])
         res = run_parallel(cmds, timeout=600 if quick else 5400)
         for (rc, out), c in zip(res, cmds):
             if rc == 3:
@@ -455,6 +470,7 @@ def run(prop, tier, seed, replay=None, embed=False):
             evs = by_t[f_["t"]]
             init = evs[0]
             scenario = dict(id=f_["t"], nb=init["a"]["nb"], punch=init["a"]["punch"], src="replay", layer="L0",
+                            src0=init["a"].get("src", ""),
                             ops=[event_to_op(e) for e in evs[1:] if e["seq"] <= f_["seq"] and not e.get("partial")])
             k = match_known(prop, sig)
             rec = dict(property=prop, signature=sig, failed_record=f_, scenario=scenario)
@@ -465,6 +481,13 @@ def run(prop, tier, seed, replay=None, embed=False):
                 violations.append((path, rec))
 
         l1 = None
+        if prop == "C16" and replay is None and not embed:
+            # the controller's grow (harness L1): all replicas RW, one replica failing its resize, a
+            # grow during a rebuild; every replica in service must end up with the new size
+            import fam_controller
+            v1, k1, l1 = fam_controller.run("C16", tier, seed, embed=True)
+            violations += v1
+            known += k1
         if prop == "C01" and replay is None and not embed:
             # the controller's range check (harness L1): out-of-range reads and writes in every
             # membership of a bootstrap; refused, no replica touched, nothing changed
@@ -508,7 +531,7 @@ def run(prop, tier, seed, replay=None, embed=False):
             failures_in_scope=len(violations) + len(known), failures_other_properties=others[:20],
             exhaustive=False)
         if l1:
-            coverage["controller_range_check_L1"] = l1
+            coverage["controller_part_L1"] = l1
         if replay is not None:
             coverage["states"] = coverage["states"] or 1
             coverage["transitions"] = coverage["transitions"] or 1
